@@ -3,7 +3,7 @@
 use crate::{
     Error, Result,
     compression::{compress, flags as compression_flags},
-    crypto::{encrypt_block, hash_string, hash_type, het_hash, jenkins_hash},
+    crypto::{encrypt_block, hash_string, hash_type, het_hash},
     header::{FormatVersion, MpqHeaderV4Data},
     special_files::{AttributeFlags, Attributes, FileAttributes},
     tables::{
@@ -1749,6 +1749,37 @@ impl ArchiveBuilder {
         Ok(())
     }
 
+    /// Width of the name hash of the HET table in bits
+    ///
+    /// The name hash of a file is the 64-bit Jenkins hashlittle2 of its name cut to this
+    /// width, with the top bit set. Its top eight bits are name hash 1 (stored in the HET
+    /// table), the remaining low bits are name hash 2 (stored in the BET table).
+    const HET_NAME_HASH_BITS: u32 = 64;
+
+    /// Width of name hash 2 of the BET table in bits
+    const BET_NAME_HASH_BITS: u32 = Self::HET_NAME_HASH_BITS - 8;
+
+    /// Names of the files in the order of their file index (block table position)
+    fn het_bet_file_names(&self) -> Vec<&str> {
+        // A generated (attributes) file replaces one that was added by hand and is
+        // written behind all other files
+        let collect_attributes = matches!(
+            self.attributes_option,
+            AttributesOption::GenerateCrc32 | AttributesOption::GenerateFull
+        );
+
+        let mut names: Vec<&str> = self
+            .pending_files
+            .iter()
+            .map(|pending_file| pending_file.archive_name.as_str())
+            .filter(|name| !(collect_attributes && *name == "(attributes)"))
+            .collect();
+        if collect_attributes {
+            names.push("(attributes)");
+        }
+        names
+    }
+
     /// Create HET table data using the final hash table (includes attributes file)
     fn create_het_table_with_hash_table(
         &self,
@@ -1776,7 +1807,7 @@ impl ArchiveBuilder {
             table_size: 0, // Will be calculated later
             max_file_count: file_count,
             hash_table_size: hash_table_entries, // Number of hash entries (in bytes)
-            hash_entry_size: 8,                  // Always 8 bits for the name hash
+            hash_entry_size: Self::HET_NAME_HASH_BITS,
             total_index_size: hash_table_entries * Self::calculate_bits_needed(file_count as u64),
             index_size_extra: 0,
             index_size: Self::calculate_bits_needed(file_count as u64),
@@ -1786,7 +1817,7 @@ impl ArchiveBuilder {
         // Copy values from packed struct to avoid alignment issues
         let index_size = header.index_size;
 
-        // Create hash table (8-bit name hashes)
+        // Create hash table (name hash 1 of each file)
         let mut het_hash_table = vec![HetTable::ENTRY_FREE; hash_table_entries as usize];
 
         // Create file indices array
@@ -1799,23 +1830,9 @@ impl ArchiveBuilder {
             self.write_bit_entry(&mut file_indices, i as usize, invalid_index, index_size)?;
         }
 
-        // Process files from the original pending_files plus attributes if present
-        let mut file_index = 0;
-
-        // Process pending files (excluding attributes to match write order)
-        let collect_attributes = matches!(
-            self.attributes_option,
-            AttributesOption::GenerateCrc32 | AttributesOption::GenerateFull
-        );
-
-        for pending_file in self.pending_files.iter() {
-            // Skip (attributes) file if it's being generated - we'll add it later
-            if pending_file.archive_name == "(attributes)" && collect_attributes {
-                continue;
-            }
-
-            let hash_bits = 8;
-            let (hash, name_hash1) = het_hash(&pending_file.archive_name, hash_bits);
+        // File index i of the HET table is entry i of the BET (and block) table
+        for (file_index, file_name) in self.het_bet_file_names().into_iter().enumerate() {
+            let (hash, name_hash1) = het_hash(file_name, Self::HET_NAME_HASH_BITS);
 
             // Calculate starting position for linear probing
             let start_index = (hash % hash_table_entries as u64) as usize;
@@ -1825,7 +1842,7 @@ impl ArchiveBuilder {
             loop {
                 // Check if slot is free
                 if het_hash_table[current_index] == HetTable::ENTRY_FREE {
-                    // Store the 8-bit name hash
+                    // Store name hash 1, the top eight bits of the name hash
                     het_hash_table[current_index] = name_hash1;
 
                     // Store the file index in the bit-packed array
@@ -1836,33 +1853,6 @@ impl ArchiveBuilder {
                         index_size,
                     )?;
 
-                    break;
-                }
-
-                current_index = (current_index + 1) % hash_table_entries as usize;
-                if current_index == start_index {
-                    return Err(Error::invalid_format("HET table full"));
-                }
-            }
-            file_index += 1;
-        }
-
-        // Add attributes file if it was generated (use the same file_index that write_attributes_file used)
-        if collect_attributes {
-            let hash_bits = 8;
-            let (hash, name_hash1) = het_hash("(attributes)", hash_bits);
-            let start_index = (hash % hash_table_entries as u64) as usize;
-
-            let mut current_index = start_index;
-            loop {
-                if het_hash_table[current_index] == HetTable::ENTRY_FREE {
-                    het_hash_table[current_index] = name_hash1;
-                    self.write_bit_entry(
-                        &mut file_indices,
-                        current_index,
-                        file_index as u64,
-                        index_size,
-                    )?;
                     break;
                 }
 
@@ -2116,11 +2106,13 @@ impl ArchiveBuilder {
         let file_table_bits = file_count * table_entry_size;
         let file_table_size = file_table_bits.div_ceil(8); // Round up to bytes
 
-        // BET hash information (simplified - we'll use 64-bit hashes)
-        let bet_hash_size = 64;
-        let total_bet_hash_size = file_count * bet_hash_size;
+        // Name hash 2: what is left of the HET name hash below name hash 1
+        // (bit-packed array; each entry takes the total size, of which the effective
+        // size is used)
+        let bet_hash_size = Self::BET_NAME_HASH_BITS;
         let bet_hash_size_extra = 0;
-        let bet_hash_array_size = total_bet_hash_size.div_ceil(8);
+        let total_bet_hash_size = bet_hash_size + bet_hash_size_extra;
+        let bet_hash_array_size = (file_count * total_bet_hash_size).div_ceil(8);
 
         // Create header (without extended header fields)
         let header = BetHeader {
@@ -2150,6 +2142,7 @@ impl ArchiveBuilder {
 
         // Create BET hashes
         let mut bet_hashes = Vec::with_capacity(file_count as usize);
+        let file_names = self.het_bet_file_names();
 
         // Fill tables
         for i in 0..file_count as usize {
@@ -2190,16 +2183,16 @@ impl ArchiveBuilder {
                     )?;
                 }
 
-                // Generate BET hash (Jenkins one-at-a-time hash of filename)
-                // Note: BET uses Jenkins one-at-a-time, not hashlittle2 like HET
-                let filename = if i < self.pending_files.len() {
-                    &self.pending_files[i].archive_name
-                } else {
-                    // This must be the attributes file
-                    "(attributes)"
+                // Name hash 2 of the file: the HET name hash without name hash 1. Entries
+                // that belong to no file keep 0.
+                let name_hash2 = match file_names.get(i) {
+                    Some(file_name) => {
+                        let (hash, _name_hash1) = het_hash(file_name, Self::HET_NAME_HASH_BITS);
+                        hash & ((1u64 << Self::BET_NAME_HASH_BITS) - 1)
+                    }
+                    None => 0,
                 };
-                let hash = jenkins_hash(filename);
-                bet_hashes.push(hash);
+                bet_hashes.push(name_hash2);
             }
         }
 
@@ -2254,7 +2247,12 @@ impl ArchiveBuilder {
         // Write BET hashes (bit-packed)
         let mut hash_bytes = vec![0u8; bet_hash_array_size as usize];
         for (i, &hash) in bet_hashes.iter().enumerate() {
-            self.write_bit_entry(&mut hash_bytes, i, hash, bet_hash_size)?;
+            Self::write_bits(
+                &mut hash_bytes,
+                i * total_bet_hash_size as usize,
+                hash,
+                bet_hash_size,
+            )?;
         }
         result.extend_from_slice(&hash_bytes);
 
